@@ -57,6 +57,22 @@ var userFuns = map[string]func() *val.Val{
 			return v
 		})
 	},
+	"U_HN": func() *val.Val {
+		outer := types.Obj([]types.Field{{Name: "o", Val: objAB()}})
+		return val.Fun(types.Fun("hn", []*types.Type{outer}, types.Num), func(args ...*val.Val) *val.Val {
+			logCall("U_HN", args)
+			o, _ := args[0].Obj().Get("o")
+			v, _ := o.Obj().Get("a")
+			return v
+		})
+	},
+	"U_HNP": func() *val.Val {
+		a := types.TyVar("a")
+		return val.Fun(types.Fun("hn", []*types.Type{a}, types.Str), func(args ...*val.Val) *val.Val {
+			logCall("U_HNP", args)
+			return val.Str("P")
+		})
+	},
 	"U_F": func() *val.Val {
 		ln := types.List(types.Num)
 		return val.Fun(types.Fun("f", []*types.Type{ln, ln}, types.Num), func(args ...*val.Val) *val.Val {
